@@ -658,7 +658,7 @@ class WritableDatabase(Database):
                         print(f'{line}: {self.warnings[line]}')
                     print(f'Total entries attempted: {nentries}.')
                     for warn_type in Warning.Type:
-                        if warn_type in lost:
+                        if warn_type in lost and nentries > 0:
                             print(
                                 f'Lost to {warn_type.value}: {lost[warn_type]} '
                                 f'({100 * lost[warn_type] / nentries:.2f}%).'
